@@ -152,6 +152,28 @@ theorem C08_no_crash {w : World} {picks : List Nat} {so so' : Sorter} {s' : Sess
     (hloop : buildLoop F P g cfg so { w := w, skipMarks := marks } picks = .ok (so', s')) : s'.crashed = false :=
   (run_of_buildLoop _ _ _ _ _ hloop).no_crash hdag hids rfl
 
+/-- **C08_vanished_neighbour_crashes** (finding F29). `C08_no_crash` rests on the model's premise that a
+body only *writes* its products (`Engine.runBody` never removes a file). What the code does when that
+premise is broken — the body deleted one of its own dependency files, so that after a successful
+setup / execute / teardown some neighbour has no state: `update_states_in_database` raises inside
+`process_report`; **no report is appended** and the crash flag is set, after which the build loop
+accepts no further task (`buildLoop` returns `leftover` for any further pick) and `build` ends with
+exit code 1. -/
+theorem C08_vanished_neighbour_crashes (s : Sess) (t : TaskSpec) (hdry : cfg.dry = false)
+    (hv : ∃ v ∈ neighbours g t.id, stateOf P s.w v = none) :
+    (processReport P g cfg s t .none).reports = s.reports ∧ (processReport P g cfg s t .none).crashed = true ∧
+    ∀ so x xs, buildLoop F P g cfg so (processReport P g cfg s t .none) (x :: xs) = .error .leftover := by
+  have hrec : (recordStates P g cfg s.w t.id).2 = false := by
+    unfold recordStates
+    rw [if_neg (by simp [hdry])]
+    exact updateStates_fail t.id _ _ hv
+  have h1 : (processReport P g cfg s t .none).reports = s.reports := by simp [processReport, hrec]
+  have h2 : (processReport P g cfg s t .none).crashed = true := by simp [processReport, hrec]
+  refine ⟨h1, h2, ?_⟩
+  intro so x xs
+  unfold buildLoop
+  simp [h2]
+
 /-- **C08_exactly_one.** Unless the build stopped early (failure limit reached), once the scheduler is
 exhausted every collected task has exactly one report. -/
 theorem C08_exactly_one {w : World} {picks : List Nat} {so so' : Sorter} {s' : Sess}
@@ -203,18 +225,28 @@ theorem C08_exit_zero_iff {w : World} {picks : List Nat} {r0 : Result}
 
 /-! ## `build()`: the try/except ladder -/
 
-/-- All injected faults are ordinary exceptions (`Exception` subclasses), as user-code errors are. -/
-def OrdinaryFaults (fl : Faults) : Prop :=
+/-- User-code faults: ordinary exceptions (`Exception` subclasses) in any phase; while a task module is
+imported also `SystemExit` (a module calling `sys.exit()`). -/
+def UserFaults (fl : Faults) : Prop :=
   (∀ e, fl.configure = some e → ∃ c, e = .exn c) ∧ (∀ ph e, fl.phase ph = some e → ∃ c, e = .exn c) ∧
-  fl.unconfigure = none
+  fl.unconfigure = none ∧
+  (∀ e, fl.importRaises = some e → (∃ c, e = .exn c) ∨ e = .base "SystemExit")
 
-/-- **C08_returns.** Whatever ordinary exception a phase raises (configuration, header, collection,
-graph, execution — alone or in combination) and whatever the tasks do, `build()` returns a session:
-no exception escapes. -/
-theorem C08_returns {w : World} {picks : List Nat} {fl : Faults} {r : TopResult}
-    (hf : OrdinaryFaults fl) (hb : buildTop F P cfg w picks fl = .ok r) : r.raised = false := by
+theorem importExc_user {e : Exc} (h : (∃ c, e = .exn c) ∨ e = .base "SystemExit") :
+    importExc e = .exn Generated.collectLogRaises := by
+  rcases h with ⟨c, rfl⟩ | rfl
+  · unfold importExc
+    rw [handles_exception _ c (by decide)]; rfl
+  · decide
+
+/-- **C08_returns_full.** Whatever ordinary exception a phase raises (configuration, header,
+collection, graph, execution — alone or in combination), whatever the tasks do, and also when a task
+module calls `sys.exit()` while it is imported (since the F28 repair `Generated.collectFileCatches`
+contains `SystemExit`): `build()` returns a session, no exception escapes. -/
+theorem C08_returns_full {w : World} {picks : List Nat} {fl : Faults} {r : TopResult}
+    (hf : UserFaults fl) (hb : buildTop F P cfg w picks fl = .ok r) : r.raised = false := by
   unfold buildTop at hb
-  obtain ⟨hc, hp, hu⟩ := hf
+  obtain ⟨hc, hp, hu, hi⟩ := hf
   split at hb
   · rename_i e he
     obtain ⟨c, rfl⟩ := hc e he
@@ -247,7 +279,11 @@ theorem C08_returns {w : World} {picks : List Nat} {fl : Faults} {r : TopResult}
                 obtain ⟨c, rfl⟩ := hp _ _ hph
                 simp at he; exact ⟨c, he.symm⟩
               · split at he
-                · exact hst e he
+                · split at he
+                  · rename_i e' him
+                    rw [importExc_user (hi e' him)] at he
+                    simp at he; exact ⟨_, he.symm⟩
+                  · exact hst e he
                 · split at he
                   · split at he
                     · simp at he; exact ⟨_, he.symm⟩
@@ -282,7 +318,7 @@ theorem C08_returns {w : World} {picks : List Nat} {fl : Faults} {r : TopResult}
 
 /-- No fault injected anywhere. -/
 def NoFaults (fl : Faults) : Prop :=
-  fl.configure = none ∧ (∀ ph, fl.phase ph = none) ∧ fl.unconfigure = none
+  fl.configure = none ∧ (∀ ph, fl.phase ph = none) ∧ fl.unconfigure = none ∧ fl.importRaises = none
 
 /-- **C08_top_is_build.** Without phase faults `build()` is the engine's `build`: same exit code,
 reports, body log and world; it returns, and `pytask_unconfigure` is called. All engine-level
@@ -291,13 +327,13 @@ theorem C08_top_is_build {w : World} {picks : List Nat} {fl : Faults} {r0 : Resu
     (hf : NoFaults fl) (hdag : createDag P cfg = .ok (g, marks)) (hb : build F P cfg w picks = .ok r0) :
     ∃ r, buildTop F P cfg w picks fl = .ok r ∧ r.raised = false ∧ r.configured = true ∧ r.unconfigured = true ∧
       r.exit = r0.exit ∧ r.reports = r0.reports ∧ r.log = r0.log ∧ r.w = r0.w := by
-  obtain ⟨hc, hp, hu⟩ := hf
+  obtain ⟨hc, hp, hu, himp⟩ := hf
   obtain ⟨so, hso⟩ := fromDag_ok_of_createDag hdag (prioFn P)
   unfold build at hb
   rw [hdag] at hb
   simp only [hso] at hb
   unfold buildTop
-  simp only [hc, Generated.buildPhases, List.foldl, runPhase, hp, Option.isSome_none, Bool.or_self, Bool.false_eq_true,
+  simp only [hc, himp, Generated.buildPhases, List.foldl, runPhase, hp, Option.isSome_none, Bool.or_self, Bool.false_eq_true,
     reduceIte, String.reduceBEq, hdag, hso]
   cases hl : buildLoop F P g cfg so { w := w, skipMarks := marks } picks with
   | error e => rw [hl] at hb; cases hb
@@ -370,38 +406,58 @@ expression — any class, `create_dag` re-raises it as `ResolvingDependenciesErr
 product declared by two tasks give exit code 4 (`DAG_FAILED`); no task is executed. -/
 theorem C08_exit_dag {w : World} {picks : List Nat} {fl : Faults} {r : TopResult}
     (hc : fl.configure = none) (hh : fl.phase "header" = none) (hcol : fl.phase "collect" = none)
+    (himp : fl.importRaises = none)
     (hd : (∃ c, fl.phase "dag" = some (.exn c)) ∨ (fl.phase "dag" = none ∧ ∃ e, createDag P cfg = .error e))
     (hu : fl.unconfigure = none) (hb : buildTop F P cfg w picks fl = .ok r) :
     r.raised = false ∧ r.exit = 4 ∧ r.unconfigured = true ∧ r.reports = [] ∧ r.log = [] ∧ r.w = w := by
   unfold buildTop at hb
   have hl : ladderFind Generated.buildLadder (.exn "ResolvingDependenciesError") = some "DAG_FAILED" := by decide
   rcases hd with ⟨c, hd⟩ | ⟨hd, e, he⟩
-  · simp only [hc, Generated.buildPhases, List.foldl, runPhase, hh, hcol, hd, dagExc, Generated.dagWrapsException,
+  · simp only [hc, himp, Generated.buildPhases, List.foldl, runPhase, hh, hcol, hd, dagExc, Generated.dagWrapsException,
       Option.isSome_none, Option.isSome_some, Bool.or_self, Bool.false_eq_true, Bool.true_or, reduceIte, String.reduceBEq,
       hl, hu, Generated.unconfigureAfterLadder, Bool.not_true, Bool.or_false, Except.ok.injEq] at hb
     subst hb
     exact ⟨rfl, (by decide : exitCode "DAG_FAILED" = 4), rfl, rfl, rfl, rfl⟩
-  · simp only [hc, Generated.buildPhases, List.foldl, runPhase, hh, hcol, hd, he, dagExc, Generated.dagWrapsException,
+  · simp only [hc, himp, Generated.buildPhases, List.foldl, runPhase, hh, hcol, hd, he, dagExc, Generated.dagWrapsException,
       Option.isSome_none, Option.isSome_some, Bool.or_self, Bool.false_eq_true, Bool.true_or, reduceIte, String.reduceBEq,
       hl, hu, Generated.unconfigureAfterLadder, Bool.not_true, Bool.or_false, Except.ok.injEq] at hb
     subst hb
     exact ⟨rfl, (by decide : exitCode "DAG_FAILED" = 4), rfl, rfl, rfl, rfl⟩
 
-/-- The full-strength claim "`build()` returns for *every* exception raised by user code in any phase"
-is **false of the current code**: an exception that is not an `Exception` subclass — `SystemExit` from a
-task module that calls `sys.exit()` while it is imported — is caught by no handler of the ladder and
-escapes (finding F28; for task *bodies* the protocol catches `SystemExit` since the F15 fix, see
-`Generated.protocolCatches`). -/
-def C08_returns_full : Prop :=
-  ∀ (F : BodyFn) (P : Project) (cfg : Cfg) (w : World) (picks : List Nat) (fl : Faults) (r : TopResult),
-    fl.unconfigure = none → buildTop F P cfg w picks fl = .ok r → r.raised = false
+/-- **C08_exit** (collection phase, import-time fault). A task module whose import raises an ordinary
+exception or `SystemExit` is a failed collection report: exit code 3, nothing is executed. -/
+theorem C08_exit_import {w : World} {picks : List Nat} {fl : Faults} {r : TopResult} {e : Exc}
+    (hc : fl.configure = none) (hh : fl.phase "header" = none) (hcol : fl.phase "collect" = none)
+    (hi : fl.importRaises = some e) (he : (∃ c, e = .exn c) ∨ e = .base "SystemExit") (hu : fl.unconfigure = none)
+    (hb : buildTop F P cfg w picks fl = .ok r) :
+    r.raised = false ∧ r.exit = 3 ∧ r.unconfigured = true ∧ r.reports = [] ∧ r.log = [] ∧ r.w = w := by
+  unfold buildTop at hb
+  have hl : ladderFind Generated.buildLadder (.exn "CollectionError") = some "COLLECTION_FAILED" := by decide
+  simp only [hc, Generated.buildPhases, List.foldl, runPhase, hh, hcol, hi, importExc_user he, Generated.collectLogRaises,
+    Option.isSome_none, Option.isSome_some, Bool.or_self, Bool.false_eq_true, reduceIte, String.reduceBEq, hl, hu,
+    Generated.unconfigureAfterLadder, Bool.not_true, Bool.or_false, Except.ok.injEq] at hb
+  subst hb
+  exact ⟨rfl, (by decide : exitCode "COLLECTION_FAILED" = 3), rfl, rfl, rfl, rfl⟩
 
-theorem C08_returns_full_false : ¬ C08_returns_full := by
-  intro h
-  have := h (fun _ _ _ _ => 0) ⟨[]⟩ {} ⟨[], []⟩ []
-    { phase := fun n => if n == "collect" then some .base else none } _ rfl rfl
-  revert this
-  decide
+/-- **C08_escapes_scope.** Exactly which import-time exceptions still escape from `build()`: the
+`BaseException` subclasses that `pytask_collect_file_protocol` does not name — `KeyboardInterrupt` (by
+design: the user interrupts the run), `GeneratorExit`, a bare `BaseException`. They are not errors of
+user code in the sense of the property. (In a task *body* the protocol catches
+`Generated.protocolCatches` = KeyboardInterrupt, Exception, SystemExit; a body raising `GeneratorExit` or a
+bare `BaseException` is outside the engine model.) -/
+theorem C08_escapes_scope {w : World} {picks : List Nat} {fl : Faults} {r : TopResult} {c : String}
+    (hc : fl.configure = none) (hh : fl.phase "header" = none) (hcol : fl.phase "collect" = none)
+    (hi : fl.importRaises = some (.base c)) (hcl : c ∈ ["KeyboardInterrupt", "GeneratorExit", "BaseException"])
+    (hb : buildTop F P cfg w picks fl = .ok r) : r.raised = true := by
+  unfold buildTop at hb
+  have key : ∀ c ∈ ["KeyboardInterrupt", "GeneratorExit", "BaseException"],
+      importExc (.base c) = .base c ∧ ladderFind Generated.buildLadder (.base c) = none := by decide
+  obtain ⟨h1, h2⟩ := key c hcl
+  simp only [hc, Generated.buildPhases, List.foldl, runPhase, hh, hcol, hi, h1, h2,
+    Option.isSome_none, Option.isSome_some, Bool.or_self, Bool.false_eq_true, Bool.true_or, reduceIte, String.reduceBEq,
+    Except.ok.injEq] at hb
+  subst hb
+  rfl
 
 /-! ## Non-vacuity -/
 
@@ -434,6 +490,15 @@ example :
     ((buildTop c08F c08P {} c08W [] { phase := fun n => if n == "collect" then some (.exn "CollectionError")
                                                         else if n == "dag" then some (.exn "ValueError") else none }).toOption.map
         (fun r => (r.raised, r.exit, r.unconfigured))) = some (false, 3, true) := by
+  decide
+
+/-- Import-time faults: `sys.exit()` in a task module is a collection failure (exit 3, build returns);
+`KeyboardInterrupt` escapes. -/
+example :
+    ((buildTop c08F c08P {} c08W [] { importRaises := some (.base "SystemExit") }).toOption.map
+        (fun r => (r.raised, r.exit, r.unconfigured))) = some (false, 3, true) ∧
+    ((buildTop c08F c08P {} c08W [] { importRaises := some (.base "KeyboardInterrupt") }).toOption.map
+        (fun r => r.raised)) = some true := by
   decide
 
 end Pytask
